@@ -141,3 +141,14 @@ package dnum
 //@   ensures! by_inf: (x.sign == 1 || x.sign == -1) && (y.sign == 2 || y.sign == -2) ==> r.sign == 0
 //@ func (dn Dnum) Round(r, mode) (res)
 //@   requires -1000 <= r && r <= 1000
+
+// ---- String: no arithmetic on the int8 exponent wraps, all slice expressions are in range ------------------
+// (strings.Repeat and strconv.Itoa are library calls without contract; getDigits' length bound is assumed:
+// a 16 digit coefficient has between 1 and 16 digits after trailing zeros are dropped)
+//@ func getDigits(coef) (r)
+//@   assumed
+//@   pure
+//@   ensures 1 <= len(r) && len(r) <= 16
+//@ func (dn Dnum) String() (r)
+//@   requires validDnum(dn)
+//@   modifies all
